@@ -33,6 +33,7 @@ afterwards; memory in the gaps of a strided view must not be written; ``lincomb`
 import copy
 import itertools
 import math
+import copy as _copy
 import operator
 
 import numpy as np
@@ -821,6 +822,11 @@ def run_arith(cfg):
                      sig='pos')
             cx.check('copy_assign', 'r%d.copy()' % i, lambda: E[i].copy(), C[i], operands=ops,
                      fresh=True, sig='copy')
+            # the copy protocol of the standard library reaches copy() through __copy__ / __deepcopy__
+            cx.check('copy_assign', 'copy.copy(r%d)' % i, lambda: _copy.copy(E[i]), C[i],
+                     operands=ops, fresh=True, sig='copy.copy')
+            cx.check('copy_assign', 'copy.deepcopy(r%d)' % i, lambda: _copy.deepcopy(E[i]), C[i],
+                     operands=ops, fresh=True, sig='copy.deepcopy')
             for j in rng3:
                 for var in ((0, 1) if (i != j and phase == 0) else (0,)):
                     if var:
